@@ -257,6 +257,73 @@ Section Csv2.
         else Err IndexErr
     end.
 
+  (* ---- polyline format  FID, PT_X, PT_Y  (network_2d_from_csv(polyline=True)) ---- *)
+  (* np.unique(frac_id) *)
+  Fixpoint insz (t : Z) (l : list Z) : list Z :=
+    match l with
+    | [] => [t]
+    | x :: r => if (t <? x)%Z then t :: l else if (t =? x)%Z then l else x :: insz t r
+    end.
+
+  (* rows of one fracture id: np.argwhere(frac_id == fi); two rows give one edge; more rows
+     pair the rows from the first to the last-but-one such row with the rows from the second
+     to the last one — whatever lies in between (the code assumes the rows of one fracture
+     are contiguous) *)
+  Definition poly_edges (ids : list Z) (fi : Z) : res (list (nat * nat)) :=
+    let ind := filter (fun i => Z.eqb (nth i ids 0%Z) fi) (seq 0 (length ids)) in
+    match ind with
+    | [] | [_] => Err ValueErr
+    | [a; b] => Ok [(a, b)]
+    | a :: a1 :: _ =>
+        (* start = pt_ind[ind[0] : ind[-1]], end = pt_ind[ind[1] : ind[-1] + 1]; np.vstack
+           raises ValueError when the two have different lengths *)
+        let b := last ind 0 in
+        let st := seq a (b - a) in
+        let en := seq a1 (S b - a1) in
+        if length st =? length en then Ok (combine st en) else Err ValueErr
+    end.
+
+  Fixpoint poly_all (ids : list Z) (fis : list Z) : res (list (nat * nat) * list Z) :=
+    match fis with
+    | [] => Ok ([], [])
+    | fi :: r =>
+        match poly_edges ids fi with
+        | Err e => Err e
+        | Ok es =>
+            match poly_all ids r with
+            | Err e => Err e
+            | Ok (es', fs') => Ok (es ++ es', map (fun _ => fi) es ++ fs')
+            end
+        end
+    end.
+
+  Definition from_csv2_polyline (skip : nat) (file : list (list str)) : res (net2 * list Z) :=
+    let data := map (map parse) (skipn skip file) in
+    match data with
+    | [] => Ok ({| pts := []; edges := [] |}, [])
+    | _ =>
+        let coords := concat (map (@tl V) data) in
+        if Nat.odd (length coords) then Err ValueErr else
+        let ptl := pairs coords in
+        let ids := map (fun r => toint (hd v0 r)) data in
+        match poly_all ids (fold_right insz [] ids) with
+        | Err e => Err e
+        | Ok (e0, fid) =>
+            let (upts, o2n) := uniq ptl in
+            if forallb (fun e => (fst e <? length o2n) && (snd e <? length o2n)) e0 then
+              let e1 := map (fun e => (nth (fst e) o2n 0, nth (snd e) o2n 0)) e0 in
+              let keep := map (fun e => negb (fst e =? snd e)) e1 in
+              let e2 := sel keep e1 in
+              let fid2 := sel keep fid in
+              if forallb (fun e => (fst e <? length upts) && (snd e <? length upts)) e2 then
+                let fr := map (fun e => (nth (fst e) upts p0, nth (snd e) upts p0)) e2 in
+                if existsb (fun f => peqb (fst f) (snd f)) fr then Err ValueErr
+                else Ok (build fr, fid2)
+              else Err IndexErr
+            else Err IndexErr
+        end
+    end.
+
   Definition uniq_okb (peq : P2 -> P2 -> bool) (l : list P2) (r : list P2 * list nat) : bool :=
     (length (snd r) =? length l) &&
     forallb (fun i => match nth_error (fst r) (nth i (snd r) 0) with
@@ -489,3 +556,12 @@ Definition csv3_agree (ptab : list (Z * str)) (qtab : list (str * Z))
                 | _, _ => false
                 end && list_eqb frac3_eqb (snd a) (snd b))
              (from_csv3 Z pa sortp accept has_domain file) back.
+
+(* ---- 2-D csv, polyline format (reader only: the library has no writer for it; the file
+   is written by the harness as documented: FID, PT_X, PT_Y) ---- *)
+Definition csv2p_agree (qtab : list (str * Z)) (skip : nat) (file : list (list str))
+           (u : list (Z * Z) * list nat) (back : res (net2 Z * list Z)) : bool :=
+  let pa := tparse_tot qtab in
+  let toint := fun v => Z.shiftr v 11 in
+  res_eqb (fun a b => net2_eqb (fst a) (fst b) && list_eqb Z.eqb (snd a) (snd b))
+          (from_csv2_polyline Z Z.eqb pa toint 0%Z (fun _ => u) skip file) back.
